@@ -283,7 +283,7 @@ func runFloat(c *hx.Ctx, r *hx.Rng, st *state) bool {
 	c.Count("float:family:" + fam)
 	c.Count(fmt.Sprintf("float:mode:%d", mode))
 	nt := mode >= 2 || hasSpecial(xs)
-	c.Case(op, nt)
+	c.Case(opKey(op), nt)
 	cls := floatClass(xs)
 	if perr != "" {
 		c.Violation(line, cls, "float encoder panicked: "+perr+" values="+short(hexWords(fbits(xs))))
